@@ -72,7 +72,7 @@ def run(ctx):
             # the same with initial markers (smaller buckets), and the predictions: without a deviation the model
             # violates the page rule - the counterexamples are the known findings, observed on the real gateway below
             gia = ctx.instance("MC_S3ListImplAfter", "S3ListImpl", "S3ListImpl_mc.cfg",
-                               consts(1, AFTERS, bkf=kf, maxbucket=2))
+                               consts(1, AFTERS[:4], bkf=kf, maxbucket=2))
             ctx.model_check(gia, 4, 1500)
             # folders two levels deep with several keys (not in the mandated universe): the procedure as fixed, and
             # the prediction of the miscount that was fixed (CountBug)
@@ -130,6 +130,14 @@ def run(ctx):
                               "maxkeys": rng.choice([1, 2, 3, 4]),
                               "after": list(rng.choice(AFTERS)) if st != "token" and rng.random() < 0.6 else []})
             extra.append((bk, rng.random() < 0.5, rng.choice(["default", "allowempty"]), loops, rng.random() < 0.3))
+        # deeper trees (several keys two and three folders down), every continuation style, small pages
+        deep = [("a/b/c", "a/b/d", "a/c", "b"), ("a/b/c", "a/b/d", "b/c/d", "b/c/e"), ("a/b/c/d", "a/b/c/e", "a/b/f", "c")]
+        for bk in deep:
+            for pfx, dl in (("", ""), ("", "/"), ("a", ""), ("a/b", "")):
+                for mk in (1, 2):
+                    extra.append((bk, mk == 1, "default", [{"style": st, "prefix": list(pfx), "delim": dl, "maxkeys": mk, "after": []}
+                                                          for st in STYLES]))
+
         def putorder(ex):
             return list(reversed(ex[0])) if len(ex) > 4 and ex[4] else list(ex[0])
         # the driver keeps one bucket alive at a time: executions on the same content are adjacent
